@@ -59,6 +59,11 @@ type ConnConfig struct {
 	// StripNegotiateRequest removes the grpctunnel-negotiate request header
 	// before the server sees it (impersonates a revision-zero network client).
 	StripNegotiateRequest bool
+	// ByRef models a transport that does not serialise a message inside Send (an in-process
+	// channel): the frame the receiver gets is encoded from the sender's message object at the
+	// moment of delivery. grpc's contract forbids modifying a message after SendMsg, so nothing
+	// changes for a conforming sender; bytes recycled after Send become visible as corruption.
+	ByRef bool
 	// StripNegotiateResponse removes the grpctunnel-negotiate response header
 	// before the client sees it (impersonates a revision-zero network server).
 	StripNegotiateResponse bool
@@ -228,11 +233,23 @@ func (c *MemConn) NewStream(ctx context.Context, desc *grpc.StreamDesc, method s
 type item struct {
 	data     []byte
 	msg      proto.Message
+	ref      proto.Message // ByRef: the sender's own message object
 	end      bool
 	st       *status.Status
 	trailer  metadata.MD
 	readyAt  time.Time
 	released bool
+}
+
+// wireBytes is what the receiver decodes: the bytes encoded at Send, or (ByRef) an encoding of the
+// sender's message object as it is now.
+func (it *item) wireBytes() []byte {
+	if it.ref != nil {
+		if b, err := proto.Marshal(it.ref); err == nil {
+			return b
+		}
+	}
+	return it.data
 }
 
 type pipe struct {
@@ -539,6 +556,9 @@ func (l *Link) send(d Dir, m any, stop func() error) error {
 		}
 	}
 	it := &item{data: data, msg: proto.Clone(pm), readyAt: l.now().Add(cfg.Latency), released: !l.conn.gated.Load()}
+	if cfg.ByRef {
+		it.ref = pm
+	}
 	l.p[d].q = append(l.p[d].q, it)
 	l.p[d].bytes += len(data)
 	l.conn.Tap.record(&TapEvent{Link: l, Kind: "emit", Dir: d, Msg: it.msg, Bytes: len(data)})
@@ -712,7 +732,7 @@ func (s *memClientStream) RecvMsg(m any) error {
 	if !ok {
 		return status.Errorf(codes.Internal, "memconn: not a proto message: %T", m)
 	}
-	if uerr := proto.Unmarshal(it.data, pm); uerr != nil {
+	if uerr := proto.Unmarshal(it.wireBytes(), pm); uerr != nil {
 		// grpc-go: failed to unmarshal the received message -> Internal, stream finished
 		e := status.Errorf(codes.Internal, "grpc: failed to unmarshal the received message: %v", uerr)
 		l.finishClientLocked(e, nil)
@@ -834,7 +854,7 @@ func (s *memServerStream) RecvMsg(m any) error {
 	if !ok {
 		return status.Errorf(codes.Internal, "memconn: not a proto message: %T", m)
 	}
-	if uerr := proto.Unmarshal(it.data, pm); uerr != nil {
+	if uerr := proto.Unmarshal(it.wireBytes(), pm); uerr != nil {
 		// grpc-go server: unmarshal failure -> Internal status; handler gets the error.
 		e := status.Errorf(codes.Internal, "grpc: failed to unmarshal the received message: %v", uerr)
 		return e
